@@ -74,6 +74,8 @@ def dense(node):
             t = dense(c)
             M, Bd, dt, eps = M @ t.M, Bd @ t.B, np.result_type(dt, t.dtype), max(eps, t.eps)
         return Ref(M, Bd, dt, eps)
+    if k == "Routine":
+        return _routine(node)
     if k == "Sliced":
         r = dense(node["arg"])
         i0 = to_index(node["slices"][0], r.M.shape[0])
@@ -105,6 +107,37 @@ def dense(node):
         ax = node["axis"]
         return Ref(np.concatenate([r.M for r in rs], axis=ax), np.concatenate([r.B for r in rs], axis=ax), dt, eps)
     raise ValueError(f"unknown kind {k}")
+
+
+ITERATIVE = {"CG", "GMRES", "Lanczos", "Arnoldi"}
+
+
+def _routine(node):
+    """The operator a cola routine returns for the argument expression, as a matrix: inverse, pseudo-inverse, matrix
+    function, Cholesky factor, or the product of the factors of plu / svd (which is the argument's matrix again).  The arguments
+    are well conditioned by construction (harness/wellcond.py), Hermitian positive definite for the matrix functions."""
+    r = dense(node["arg"])
+    fn = node["fn"]
+    M = r.M
+    sv = np.linalg.svd(M, compute_uv=False) if M.size else np.ones(1)
+    cond = float(sv.max(initial=1.0) / max(sv.min(initial=1.0), 1e-300))
+    if fn == "inv":
+        out = np.linalg.inv(M)
+    elif fn == "pinv":
+        out = np.linalg.pinv(M)
+    elif fn in ("pluprod", "svdprod"):
+        out = M
+    elif fn == "cholL":
+        out = np.linalg.cholesky((M + M.conj().T) / 2)
+    else:
+        w, V = np.linalg.eigh((M + M.conj().T) / 2)
+        f = {"exp": np.exp, "log": np.log, "sqrt": np.sqrt, "isqrt": lambda x: 1 / np.sqrt(x), "pow2": lambda x: x**2,
+             "pow-1": lambda x: 1 / x, "pow0.5": np.sqrt, "pow3": lambda x: x**3}[fn]
+        out = (V * f(w)) @ V.conj().T
+        cond = max(cond, float(np.abs(f(w)).max(initial=1.0) / max(np.abs(f(w)).min(initial=1.0), 1e-300)))
+    Bd = np.full(out.shape, max(cond, 1.0) * max(float(np.abs(out).max(initial=0.0)), 1e-300))
+    eps = max(r.eps, 1e-9) if node.get("alg") in ITERATIVE else r.eps
+    return Ref(out, Bd, r.dtype, eps)
 
 
 def _kron(A, B):
@@ -308,6 +341,9 @@ def shape_of(node):
         return (s[1], s[0])
     if k in ("NoDispatch", "Annot", "Scaled", "Symm"):
         return shape_of(node["arg"])
+    if k == "Routine":
+        s = shape_of(node["arg"])
+        return (s[1], s[0]) if node["fn"] == "pinv" else s
     if k == "Gram":
         s = shape_of(node["arg"])
         s = (s[1], s[1]) if node["form"] in ("TA", "HA") else (s[0], s[0])
@@ -343,7 +379,7 @@ def signature(node):
     """Canonical structure string: kinds + shapes + dtypes (+ flags), no payload seeds."""
     k = node["k"]
     flags = ""
-    for f in ("dt", "via", "axis", "mult", "lower", "sorted", "dups", "name", "gen", "fn", "bs1", "bs2", "form", "same"):
+    for f in ("dt", "via", "axis", "mult", "lower", "sorted", "dups", "name", "gen", "fn", "bs1", "bs2", "form", "same", "alg"):
         if f in node:
             flags += f"{f}={node[f]};"
     if k == "Scaled":
